@@ -506,6 +506,18 @@ func killCase(r *ev.Run, h history, g *golden, base string, kc kcase) (recoveryB
 	}
 	// final state = golden final state
 	st, err := state(c2)
+	if err != nil && kc.K2 > 0 && !died {
+		// the second kill point lies in the barrier entry of this very check: everything was acknowledged;
+		// recover once more, without a kill
+		c2.Kill()
+		died = true
+		c3, _, _, _, ok3 := recoverAndCheck(r, h, g, db, rf, len(h.steps)-1, g.total-h.steps[len(h.steps)-1].n, kc)
+		if !ok3 {
+			return
+		}
+		c2 = c3
+		st, err = state(c2)
+	}
 	if err != nil {
 		r.Violation("the recovered server dies after finishing the history", map[string]interface{}{"case": kc})
 		c2.Kill()
